@@ -39,8 +39,15 @@ partial def loop (h : IO.FS.Stream) (out : IO.FS.Stream) (s : State) : IO Unit :
     let hint := parseHint ((parts.drop 1).headD "")
     match parseOp opS with
     | none =>
-      out.putStrLn "bad-op"
-      loop h out s
+      match parseMakeMutField opS with
+      | some (q, k) =>
+        let before := s.log.length
+        let s' := makeMutField s q k hint
+        out.putStrLn (observe before s')
+        loop h out s'
+      | none =>
+        out.putStrLn "bad-op"
+        loop h out s
     | some op =>
       let before := s.log.length
       let s' := execOp defaultFuel s op hint
